@@ -75,6 +75,16 @@ CLAIMED = {
               "factor of exactly A + j_b I, triangularity/orientation, exception types, warnings, input immutability; the recorded "
               "cholesky_ex attempts must satisfy the per-member trace conditions."),
         design="5/C16", note="TLC 1.8; exactness of IEEE Cholesky pivots' signs on the integer members; harness/checks/c16.py"),
+    "C19": dict(
+        engine="E1-denote-replay",
+        technique="TLA+ validity predicates (matmul / broadcast / expand / index range) enumerate every invalid operand for every class; expectation 'raises' replayed, spec verdict cross-checked against torch",
+        text=("spec/MC_C19.tla: for each of the 33 operator classes (4x4 and, where allowed, 2x3 instances, with and without a batch dimension) "
+              "TLC enumerates every second-operand shape of rank <= 3 over sizes 1..5 and every index value that the specification's validity "
+              "predicates reject - wrong or size-1 inner dimension, non-broadcastable batch, non-expandable target, index >= size or < -size, "
+              "square-only operations on rectangular operators - for matmul, rmatmul, +, elementwise *, solve, inv_quad, add_diagonal, "
+              "expand, concatenation, integer / tensor indexing (about 22k invalid calls). Each call is first made on the dense tensor (torch "
+              "must reject it too, else machinery error) and then on the real operator with debug on/off: it must raise."),
+        design="5/C19"),
     "C17": dict(
         engine="E3-history-machines",
         technique="TLA+ state machine of settings contexts (ideal scoped semantics + implementation-shaped model), TLC refinement check, all histories replayed into linear_operator.settings",
